@@ -5,7 +5,9 @@ specs/Registry.tla (the state machine: variables reg, lib, fmt; actions Register
 Unregister / Clear / Get / Has / All / AllMutate / SetFmt; invariants TypeOK, TagIffUsed,
 ProtectedUntouched, action property Independent), specs/MC_C15.tla (bounded instances, DictLike,
 ErrorsExact, SameClassNoOp, QueriesPure, ReadsRight, JSON export of every transition),
-specs/Trace_C15.tla (validation of recorded histories).
+specs/Trace_C15.tla (validation of recorded histories), specs/RegistryImpl.tla + MC_C15B.tla
+(implementation-shaped model of _registry / _tags / Library.tags; TLC checks that it refines the
+specification, finds the known deviation as a counterexample, and that the proposed repair refines).
 
 spec -> code (a) TLC explores the complete state graph of every configuration of the tier and
               exports every transition (world before, call, admitted result + world after).
@@ -20,10 +22,18 @@ code -> spec  seeded random histories on the real objects over wider configurati
               are validated in one TLC batch by Trace_C15.
 
 Configurations: T1 one registry; T2 two registries with private libraries; T3 two registries
-sharing one Library; T4 one registry whose settings callable switches the tag formatter.  The
-default formatter (one tag "component") and the shorthand formatter (tag = name); Library with
-a built-in tag "slot" and a user tag "u" already present; "slot" protected or not; names
-"a", "slot" (= the protected tag) and "u" (= the unprotected user tag).
+sharing one Library; T4 one registry whose settings callable switches the tag formatter; T5 the
+library's own list of protected names (mark_protected_tags(lib) without a list).  The default
+formatter (one tag "component") and the shorthand formatter (tag = name); Library with a
+built-in tag "slot" and a user tag "u" already present; "slot" protected or not (and a protected
+name that is not in the library); names "a", "slot" (= the protected tag) and "u" (= the
+unprotected user tag).  The formatter reaches the registry as object, import string, deprecated
+TAG_FORMATTER field or settings callable (harness detail, not part of the specification).
+
+Known deviations (KNOWN_FINDINGS.txt) are named extra outcomes in RegistryOps!DevOutcomes.  They
+are exported next to the admitted outcomes (field "dev") and, for histories, admitted in a second
+Trace_C15 pass (cfg.dev = TRUE) over what the specification proper rejected: a failure is a
+KNOWN-FINDING only if the observation equals what the named deviation predicts.
 
 Unspecified zones (not alarmed on):
  * an UNPROTECTED tag that existed before a component took it over: after the last user is
@@ -55,7 +65,7 @@ from pathlib import Path
 from typing import Any, Dict, List, Optional, Tuple
 
 from . import tlc
-from .core import Check, MachineryError, canon, workdir
+from .core import Check, MachineryError, canon, sha, workdir
 
 PID = "C15"
 NAMES = ["a", "slot", "u"]
@@ -68,6 +78,9 @@ MC_CFG = ("SPECIFICATION MCSpec\nCONSTANT Configs <- MCConfigs\nVIEW mcView\n"
           "PROPERTY Independent\n")
 TRACE_CFG = "SPECIFICATION TrSpec\nINVARIANT WorldsOK\n"
 STYLES = ["object", "string", "legacy", "callable"]
+# the documented protected names (django_components.library.PROTECTED_TAGS); if the library's list
+# differs the harness passes this list explicitly, so the configuration stays what the spec was given
+REAL_PROTECTED = ["component_css_dependencies", "component_js_dependencies", "fill", "html_attrs", "provide", "slot"]
 
 
 # ================================================================ configurations
@@ -126,6 +139,13 @@ def mc_configs(tier: str) -> List[Dict[str, Any]]:
     for fs, p, est in t4:
         out.append(make_config(f"T4-{'-'.join(fs)}-p{p}", ["r1"], {"r1": "L1"}, {"r1": fs[0]},
                                ["slot"] if p else [], fmts={"r1": fs}, ops=BASE_OPS + ["decorate"], est=est))
+    # T5: the names django_components itself protects (mark_protected_tags(lib) without a list), all
+    # seven built-in tags present, "component" being the unprotected one; shorthand + default
+    real_pre = [[t, "builtin"] for t in ["component"] + REAL_PROTECTED]
+    for f in ("short", "component"):
+        out.append(make_config(f"T5-{f}-realprot", ["r1"], {"r1": "L1"}, {"r1": f}, REAL_PROTECTED,
+                               names=["a", "fill", "component"], classes=("A", "B"), pre=real_pre,
+                               ops=BASE_OPS + ["decorate"], est=2))
     return out
 
 
@@ -187,7 +207,11 @@ class World:
             for t, owner in pre[l]:
                 lib.tag(t, L["owner"][owner])
             if prot[l]:
-                L["mark"](lib, list(prot[l]))
+                import django_components.library as dlib
+                if sorted(prot[l]) == sorted(REAL_PROTECTED) == sorted(getattr(dlib, "PROTECTED_TAGS", [])):
+                    L["mark"](lib)                       # the library's own default list
+                else:
+                    L["mark"](lib, list(prot[l]))
             self.libs[l] = lib
         style = dict(cfg.get("style") or [])
         fmt0 = dict(cfg["fmt0"])
@@ -236,9 +260,7 @@ class World:
         op = e["op"]
         try:
             if op == "register":
-                ret = reg.register(e["n"], L["classes"][e["c"]])
-                if ret is not None:
-                    out["cls"] = "?returned " + repr(ret)
+                reg.register(e["n"], L["classes"][e["c"]])      # return value: not part of the property
             elif op == "decorate":
                 ret = dc.register(e["n"], registry=reg)(L["classes"][e["c"]])
                 out["cls"] = L["clsid"].get(ret, "?returned " + repr(ret)) if isinstance(ret, type) \
@@ -318,14 +340,16 @@ class Graph:
         self.worlds: Dict[str, Any] = {}
         for row in rows:
             pk = wkey(row["pre"])
-            k = (pk, canon(row["call"]))
+            c = row["call"]
+            k = (pk, f"{c['op']}({c['r']},{c['n']},{c['c']})")
             if k not in self.groups:
                 self.groups[k] = []
                 self.by_pre.setdefault(pk, []).append(k)
             self.groups[k].append(row)
-            self.worlds.setdefault(pk, row["pre"])
             qk = wkey(row["post"])
-            self.worlds.setdefault(qk, row["post"])
+            row["pre"] = self.worlds.setdefault(pk, row["pre"])        # one object per distinct world
+            row["post"] = self.worlds.setdefault(qk, row["post"])
+            row["_post"] = qk
             self.maybe.setdefault(qk, row["maybe"])
         self.init = wkey({"reg": [], "lib": [[l, t, o] for l, tags in cfg["pre"] for t, o in tags],
                           "fmt": cfg["fmt0"]})
@@ -341,7 +365,7 @@ class Graph:
                 g = self.groups[k]
                 if len(g) != 1 or g[0]["call"]["op"] not in MUTATING:
                     continue
-                q = wkey(g[0]["post"])
+                q = g[0]["_post"]
                 if q not in self.path:
                     self.path[q] = self.path[s] + [g[0]["call"]]
                     dq.append(q)
@@ -352,8 +376,7 @@ class Graph:
 
 
 def wkey(w: Dict[str, Any]) -> str:
-    return canon({"reg": sorted(map(list, w["reg"])), "lib": sorted(map(list, w["lib"])),
-                  "fmt": sorted(map(list, w["fmt"]))})
+    return repr((sorted(map(tuple, w["reg"])), sorted(map(tuple, w["lib"])), sorted(map(tuple, w["fmt"]))))
 
 
 def judge(obs, proj, group) -> Tuple[Optional[int], Any]:
@@ -375,7 +398,7 @@ def deviation_key(obs, proj, group) -> Optional[str]:
     return None
 
 
-def replay_group(cfg, path, group) -> Optional[Dict[str, Any]]:
+def replay_group(cfg, path, group, pre_maybe=()) -> Optional[Dict[str, Any]]:
     """Replay one (world, call) of the exported graph on fresh real objects; None if it conforms."""
     w = World(cfg)
     try:
@@ -383,7 +406,7 @@ def replay_group(cfg, path, group) -> Optional[Dict[str, Any]]:
             w.call(e)
         proj = w.project()
         pre = group[0]["pre"]
-        bad = world_mismatch(proj, pre, [])
+        bad = world_mismatch(proj, pre, pre_maybe)
         if bad:
             return {"stage": "construct-source-world", "path": path, "failing": bad, "expected": pre,
                     "observed": proj, "key": None}
@@ -399,25 +422,32 @@ def replay_group(cfg, path, group) -> Optional[Dict[str, Any]]:
         w.dispose()
 
 
-# ---- worker side (forked; the graphs are inherited, only indices travel) ----------------------
-_GRAPHS: Dict[str, Graph] = {}
+# ---- worker side ---------------------------------------------------------------------------
+_GRAPHS: Dict[str, Graph] = {}          # selftest: loaded once in the parent, inherited by fork
 
 
-def _replay_task(arg):
-    cid, lo, hi = arg
-    g = _GRAPHS[cid]
+def _config_task(arg):
+    """Everything for one configuration: load its exported graph, replay every (world, call) on
+    fresh objects, then walk the graph on persistent objects."""
+    cfg, path, seed, steps = arg
+    cid = cfg["id"]
+    g = _GRAPHS.get(cid) or Graph(cfg, tlc.read_ndjson(Path(path)))
     bad = []
-    for k in g.keys[lo:hi]:
+    hashes = []
+    for k in g.keys:
         group = g.groups[k]
-        r = replay_group(g.cfg, g.path[k[0]], group)
+        r = replay_group(g.cfg, g.path[k[0]], group, g.maybe.get(k[0], []))
         if r:
-            bad.append((k, r))
-    return cid, hi - lo, bad
-
-
-def _walk_task(arg):
-    cid, seed, steps = arg
-    return cid, walk(_GRAPHS[cid], random.Random(seed), steps)
+            adm = r.pop("admitted", None)
+            bad.append((case_of(g, k, {"admitted": adm}), r))
+        row = group[0]
+        hashes.append((sha([cid, k[0], k[1]]), row["call"]["op"] in MUTATING or bool(row["pre"]["reg"])))
+    mid = g.keys[len(g.keys) // 2]
+    sample = {"transition": {"cfg": cid, "pre": g.groups[mid][0]["pre"], "call": g.groups[mid][0]["call"],
+                             "admitted": [{"res": r["res"], "post": r["post"]} for r in g.groups[mid]]}}
+    wres = walk(g, random.Random(seed), steps)
+    return {"cid": cid, "groups": len(g.keys), "rows": sum(len(x) for x in g.groups.values()), "bad": bad,
+            "hashes": hashes, "sample": sample, "walk": wres}
 
 
 def walk(g: Graph, rnd: random.Random, steps: int) -> Dict[str, Any]:
@@ -453,7 +483,7 @@ def walk(g: Graph, rnd: random.Random, steps: int) -> Dict[str, Any]:
                 if len(bad) >= 5:
                     break
                 continue
-            s = wkey(group[i]["post"])
+            s = group[i]["_post"]
     finally:
         w.dispose()
     return {"steps": done, "covered": len(seen), "bad": bad}
@@ -463,16 +493,13 @@ def walk(g: Graph, rnd: random.Random, steps: int) -> Dict[str, Any]:
 _EXPORT_CACHE: Dict[str, Any] = {}
 
 
-def export_graphs(tier: str, cfgs: List[Dict[str, Any]], par: int = 4) -> Dict[str, Any]:
-    """Run TLC on MC_C15 for all configurations (a few parallel single-worker runs, because the
-    export relies on every transition being generated exactly once) and load the graphs."""
-    key = canon([c["id"] for c in cfgs])
-    if key in _EXPORT_CACHE:
-        return _EXPORT_CACHE[key]
+def export_rows(cfgs: List[Dict[str, Any]], par: int = 4, nbins: int = 4) -> Dict[str, Any]:
+    """Run TLC on MC_C15 for all configurations: `nbins` single-worker runs (the export relies on
+    every transition being generated exactly once), at most `par` at a time."""
     w = workdir("c15mc")
     (w / "mc.cfg").write_text(MC_CFG)
-    bins: List[List[Dict[str, Any]]] = [[] for _ in range(par)]
-    load = [0] * par
+    bins: List[List[Dict[str, Any]]] = [[] for _ in range(nbins)]
+    load = [0] * nbins
     for c in sorted(cfgs, key=lambda c: -c["est"]):
         i = load.index(min(load))
         bins[i].append(c)
@@ -481,29 +508,25 @@ def export_graphs(tier: str, cfgs: List[Dict[str, Any]], par: int = 4) -> Dict[s
 
     def one(i_b):
         i, b = i_b
-        cf, out = w / f"cfgs{i}.ndjson", w / f"rows{i}.ndjson"
+        cf = w / f"cfgs{i}.ndjson"
         tlc.write_ndjson(cf, b)
-        r = tlc.require_ok(tlc.run("MC_C15", str(w / "mc.cfg"), env={"CFG": str(cf), "OUT": str(out)},
+        r = tlc.require_ok(tlc.run("MC_C15", str(w / "mc.cfg"), env={"CFG": str(cf), "OUT": str(w / "rows-")},
                                    workers=1, heap="2g"), f"MC_C15 {[c['id'] for c in b]}")
-        rows = tlc.read_ndjson(out)
-        if len(rows) != r.generated - len(b):
-            raise MachineryError(f"export incomplete: {len(rows)} lines for {r.generated} generated states "
+        lines = 0
+        for c in b:
+            with open(w / f"rows-{c['id']}.ndjson", "rb") as f:
+                lines += sum(chunk.count(b"\n") for chunk in iter(lambda: f.read(1 << 20), b""))
+        if lines != r.generated - len(b):
+            raise MachineryError(f"export incomplete: {lines} lines for {r.generated} generated states "
                                  f"({len(b)} initial)")
-        return r, rows
+        return r, lines
 
     with ThreadPoolExecutor(max_workers=par) as ex:
         results = list(ex.map(one, enumerate(bins)))
-    states = sum(r.distinct for r, _ in results)
-    trans = sum(r.generated for r, _ in results)
-    by_cfg: Dict[str, List[Dict[str, Any]]] = {c["id"]: [] for c in cfgs}
-    for _, rows in results:
-        for row in rows:
-            by_cfg[row["cfg"]].append(row)
-    graphs = {c["id"]: Graph(c, by_cfg[c["id"]]) for c in cfgs}
-    res = {"graphs": graphs, "states": states, "transitions": trans,
-           "rows": sum(len(v) for v in by_cfg.values())}
-    _EXPORT_CACHE[key] = res
-    return res
+    return {"files": {c["id"]: str(w / f"rows-{c['id']}.ndjson") for c in cfgs},
+            "states": sum(r.distinct for r, _ in results),
+            "transitions": sum(r.generated for r, _ in results),
+            "rows": sum(n for _, n in results)}
 
 
 def _pool(n: int):
@@ -519,59 +542,57 @@ def case_of(g: Graph, k, extra=None) -> Dict[str, Any]:
     return d
 
 
-def replay_graphs(chk: Check, ex: Dict[str, Any], procs: int, walk_steps: int) -> None:
+def spec_to_code(chk: Check, cfgs: List[Dict[str, Any]], procs: int, walk_steps: int, nbins: int = 4,
+                 cache: bool = False) -> None:
+    """TLC export, then one worker task per configuration (load graph, replay, walk)."""
     global _GRAPHS
-    graphs: Dict[str, Graph] = ex["graphs"]
-    _GRAPHS = graphs
-    tasks = []
-    for cid, g in graphs.items():
-        n = len(g.keys)
-        step = 2000
-        tasks += [(cid, lo, min(n, lo + step)) for lo in range(0, n, step)]
-    wtasks = [(cid, chk.seed * 7907 + 15 + i, walk_steps) for i, cid in enumerate(graphs)]
+    import zlib
+    key = canon([c["id"] for c in cfgs])
+    ex = _EXPORT_CACHE.get(key) if cache else None
+    if ex is None:
+        ex = export_rows(cfgs, nbins=nbins)
+        if cache:                                   # selftest: the TLC side is the same for every probe
+            _GRAPHS = {c["id"]: Graph(c, tlc.read_ndjson(Path(ex["files"][c["id"]]))) for c in cfgs}
+            _EXPORT_CACHE[key] = ex
+    tasks = [(c, ex["files"][c["id"]], chk.seed * 7907 + zlib.crc32(c["id"].encode()), walk_steps)
+             for c in sorted(cfgs, key=lambda c: -c["est"])]
     if procs > 1:
         with _pool(procs) as pool:
-            rres = pool.map(_replay_task, tasks, chunksize=1)
-            wres = pool.map(_walk_task, wtasks, chunksize=1)
+            results = pool.map(_config_task, tasks, chunksize=1)
     else:
-        rres = [_replay_task(t) for t in tasks]
-        wres = [_walk_task(t) for t in wtasks]
-    n_groups = 0
-    for cid, n, bad in rres:
-        n_groups += n
-        for k, detail in bad:
-            chk.violation(case_of(graphs[cid], k, {"admitted": detail.pop("admitted", None)}), detail,
-                          key=detail.get("key"))
-    for cid, g in graphs.items():
-        for k in g.keys:
-            row = g.groups[k][0]
-            chk.count([cid, k[0], k[1]], nontrivial=row["call"]["op"] in MUTATING or bool(row["pre"]["reg"]))
-        mid = g.keys[len(g.keys) // 2]
-        chk.sample({"transition": {"cfg": cid, "pre": g.groups[mid][0]["pre"], "call": g.groups[mid][0]["call"],
-                                   "admitted": [{"res": r["res"], "post": r["post"]} for r in g.groups[mid]]}},
-                   limit=4)
-    steps = 0
+        results = [_config_task(t) for t in tasks]
+    results.sort(key=lambda r: r["cid"])
+    if sum(r["rows"] for r in results) != ex["rows"]:
+        raise MachineryError("rows loaded by the workers differ from rows exported")
     unexplained = []
-    for cid, res in wres:
-        steps += res["steps"]
-        chk.add("walk_transitions_covered", res["covered"])
-        for b in res["bad"]:
-            b["cfg"] = graphs[cid].cfg
+    steps = 0
+    for res in results:
+        for case, detail in res["bad"]:
+            chk.violation(case, detail, key=detail.get("key"))
+        for h, nontrivial in res["hashes"]:
+            chk.count(h, nontrivial=nontrivial)
+        if res["cid"].startswith(("T2-component-short-p1", "T3-c_a-short-p1", "T4-component-short-p1", "T1-short-p1")):
+            chk.sample(res["sample"], limit=4)
+        chk.add("transition_cases_replayed", res["groups"])
+        steps += res["walk"]["steps"]
+        chk.add("walk_transitions_covered", res["walk"]["covered"])
+        cfg = next(c for c in cfgs if c["id"] == res["cid"])
+        for b in res["walk"]["bad"]:
+            b["cfg"] = cfg
             if b.get("key") is None:        # maybe a deviation that stayed invisible for some steps
                 b["id"] = len(unexplained) + 1
                 unexplained.append(b)
     keys = classify(workdir("c15wk"), "walks_dev", unexplained)
-    for cid, res in wres:
-        for b in res["bad"]:
-            key = b.get("key") or keys.get(b.get("id"))
+    for res in results:
+        for b in res["walk"]["bad"]:
+            k = b.get("key") or keys.get(b.get("id"))
             chk.violation({"kind": "walk", "cfg": b["cfg"], "events": b["events"]},
-                          {k: v for k, v in b.items() if k in ("stage", "failing", "observed", "admitted")}, key=key)
+                          {x: v for x, v in b.items() if x in ("stage", "failing", "observed", "admitted")}, key=k)
+    chk.add("walk_steps", steps)
+    chk.evals += steps
     chk.add("states", ex["states"])
     chk.add("transitions", ex["transitions"])
     chk.add("transitions_exported", ex["rows"])
-    chk.add("transition_cases_replayed", n_groups)
-    chk.add("walk_steps", steps)
-    chk.evals += steps
 
 
 # ================================================================ code -> spec
@@ -713,11 +734,89 @@ def validate_traces(chk: Check, ntraces: int, length: int) -> None:
     chk.add("trace_events", sum(len(t["events"]) for t in traces))
 
 
+# ================================================================ layer B: implementation-shaped model
+IMPL_CFG = ("SPECIFICATION ImplSpec\nCONSTANT ImplConfigs <- MCImplConfigs\nCONSTANT Fix = {fix}\nVIEW implView\n"
+            "INVARIANT RefsExact\nINVARIANT ImplTagIffUsed\nINVARIANT ImplProtectedUntouched\nPROPERTY StepRefines\n")
+
+
+def impl_model(chk: Check, cfgs: List[Dict[str, Any]]) -> None:
+    """specs/RegistryImpl.tla models the three tables of component_registry.py.  TLC checks that it
+    refines the specification (a) as the code is, on the static configurations, (b) as the code is,
+    with a switching formatter - a counterexample here is replayed on the real code and only the
+    real outcome counts (section 2.4 of DESIGN.md: B # A is a design-level counterexample, R # A a
+    violation, R = A with B # R model drift), (c) with the proposed repair, on everything."""
+    w = workdir("c15b")
+    static = [c for c in cfgs if not any(f for _, f in c["fmts"])]
+    switching = [c for c in cfgs if any(f for _, f in c["fmts"])]
+    runs = [("as-is/static", static, "FALSE"), ("as-is/switching", switching, "FALSE"), ("repaired/all", cfgs, "TRUE")]
+    runs = [r for r in runs if r[1]]
+
+    def one(i_run):
+        i, (name, cs, fix) = i_run
+        cf, cfgp = w / f"cfgs{i}.ndjson", w / f"impl{i}.cfg"
+        tlc.write_ndjson(cf, cs)
+        cfgp.write_text(IMPL_CFG.format(fix=fix))
+        r = tlc.run("MC_C15B", str(cfgp), env={"CFG": str(cf)}, workers=2, heap="2g")
+        if not r.ok and not r.violated:
+            tlc.require_ok(r, f"MC_C15B {name}")
+        return r
+
+    with ThreadPoolExecutor(max_workers=3) as ex:
+        results = list(ex.map(one, enumerate(runs)))
+    info = {}
+    for (name, cs, fix), r in zip(runs, results):
+        info[name] = {"refines": not r.violated, "states": r.distinct, "transitions": r.generated,
+                      "violated": r.violated}
+        chk.add("impl_states", r.distinct)
+        chk.add("impl_transitions", r.generated)
+        if not r.violated:
+            continue
+        # TLC's counterexample: the calls, in order, and the configuration it happened in
+        calls = []
+        for m in re.finditer(r"last = (\[[^\]]*\])", r.out):
+            f = dict(re.findall(r'(\w+) \|-> "([^"]*)"', m.group(1)))
+            if f.get("op") and f["op"] != "init":
+                calls.append({k: f[k] for k in ("op", "r", "n", "c")})
+        m = re.search(r'\bid \|-> "([^"]+)"', r.out)
+        cfg = next((c for c in cs if m and c["id"] == m.group(1)), None)
+        if not calls or cfg is None:
+            raise MachineryError(f"MC_C15B {name}: cannot read the counterexample\n" + r.out[-1500:])
+        info[name]["counterexample"] = {"cfg": cfg["id"], "calls": calls}
+        if fix == "TRUE":
+            continue                                  # says something about the repair, not about the code
+        # the model leaves out nothing that could hide the divergence: extend the history by what makes
+        # it observable (drop everything) and let the real code decide
+        hist = calls + [{"op": "clear", "r": r_, "n": "-", "c": "-"} for r_ in cfg["regs"]]
+        wd = World(cfg)
+        try:
+            evs = []
+            for e in hist:
+                obs = wd.call(e)
+                evs.append(_event(e, obs, wd.project()))
+        finally:
+            wd.dispose()
+        tr = {"id": 1, "cfg": cfg, "events": evs}
+        r1, v1 = run_trace_tlc(w, f"cex{len(info)}", [tr])
+        if v1 is not None and 1 in v1["accepted"]:
+            chk.add("model_drift", 1)                 # the real code conforms: the model is out of date
+            info[name]["real_code"] = "conforms (model drift)"
+        else:
+            why = {"violated": r1.violated} if v1 is None else v1["rejected"][1]
+            key = classify(w, f"cexdev{len(info)}", [tr]).get(1)
+            info[name]["real_code"] = f"reproduces ({key})"
+            chk.count(["impl-counterexample", cfg["id"], hist])
+            chk.violation({"kind": "trace", "cfg": cfg, "events": evs, "from": "TLC counterexample of MC_C15B " + name},
+                          why, key=key)
+    chk.cov["impl_model"] = info
+
+
 # ================================================================ entry points
-def core(chk: Check, tier: str, cfgs, procs: int, walk_steps: int, ntraces: int, length: int) -> None:
-    ex = export_graphs(tier, cfgs)
-    replay_graphs(chk, ex, procs, walk_steps)
+def core(chk: Check, cfgs, procs: int, walk_steps: int, ntraces: int, length: int, nbins: int = 4,
+         cache: bool = False, impl: bool = False) -> None:
+    spec_to_code(chk, cfgs, procs, walk_steps, nbins=nbins, cache=cache)
     validate_traces(chk, ntraces, length)
+    if impl:
+        impl_model(chk, cfgs)
 
 
 def run(tier: str) -> int:
@@ -727,8 +826,8 @@ def run(tier: str) -> int:
     chk = Check(PID, tier, "model_checking")
     quick = tier == "quick"
     cfgs = mc_configs(tier)
-    core(chk, tier, cfgs, procs=6 if quick else 8, walk_steps=3000 if quick else 20000,
-         ntraces=300 if quick else 3000, length=40 if quick else 80)
+    core(chk, cfgs, procs=6, walk_steps=3000 if quick else 20000,
+         ntraces=300 if quick else 3000, length=40 if quick else 80, nbins=4 if quick else 8, impl=True)
     chk.cov["configurations"] = [c["id"] for c in cfgs]
     chk.cov["exhaustive"] = True
     chk.cov["rule"] = (
@@ -764,8 +863,9 @@ def replay(path: str) -> int:
         before = w.project()
         obs = w.call(case["call"])
         after = w.project()
-        print(json.dumps({"call": case["call"], "before": before, "observed": obs, "after": after,
-                          "admitted": case.get("admitted")}, indent=1))
+        for k, v in (("path", case["path"]), ("call", case["call"]), ("before", before), ("observed", obs),
+                     ("after", after), ("admitted", case.get("admitted"))):
+            print(f"{k}: {json.dumps(v)}")
         adm = case.get("admitted") or []
         ok = any(not mismatch(obs, after, a["res"], a["cls"], a["yes"], a["all"], a["post"], a["maybe"]) for a in adm)
         return 0 if ok else 1
@@ -777,8 +877,11 @@ def replay(path: str) -> int:
             evs.append(_event(e, obs, w.project()))
         wd = workdir("c15rp")
         r, v = run_trace_tlc(wd, "replay", [{"id": 1, "cfg": dict(case["cfg"], dev=False), "events": evs}])
-        print(json.dumps({"last_event": evs[-1], "verdict": "invariant violated" if v is None else
-                          ("ACCEPT" if 1 in v["accepted"] else v["rejected"][1])}, indent=1, default=repr))
+        verdict = "invariant violated" if v is None else ("ACCEPT" if 1 in v["accepted"] else v["rejected"][1])
+        print(f"calls: {json.dumps([[e['op'], e['r'], e['n'], e['c']] for e in evs])}")
+        if isinstance(verdict, dict):
+            print(f"rejected event: {json.dumps(evs[verdict['event'] - 1])}")
+        print(f"verdict: {json.dumps(verdict, default=repr)}")
         return 0 if v is not None and 1 in v["accepted"] else 1
     print("unknown case kind")
     return 2
@@ -1029,20 +1132,23 @@ def selftest(tier: str) -> int:
                 del self.library.tags[name]
         return patch((CR, "unregister", unregister))
 
-    def third_registry_forgets_names():
-        # only visible beyond TLC's bound (3 registries exist only in the recorded traces)
-        def register(self, name, component):
-            o_register(self, name, component)
-            allr = getattr(cr, "all_registries", [])
-            mine = [x for x in allr if getattr(x, "_library", None) is not None]
-            if len(mine) >= 3 and mine[-1] is self and len(self._registry) > 2:
-                self._registry.pop(next(iter(self._registry)))
-        return patch((CR, "register", register))
+    def dotted_name_keeps_its_tag():
+        # only visible beyond TLC's bound: the name "x-y.z" occurs only in the recorded traces
+        def unregister(self, name):
+            if "." not in name:
+                return o_unregister(self, name)
+            self.get(name)
+            tag = self._registry[name].tag
+            self._tags[tag].discard(name)
+            if not self._tags[tag]:
+                del self._tags[tag]
+            del self._registry[name]                    # BUG: tag of a dotted name is never removed
+        return patch((CR, "unregister", unregister))
 
     cfgs = _selftest_configs()
 
     def body(chk):
-        core(chk, "quick", cfgs, procs=4, walk_steps=400, ntraces=120, length=40)
+        core(chk, cfgs, procs=4, walk_steps=400, ntraces=120, length=40, cache=True)
 
     probes = [("tag-deleted-while-still-used", tag_deleted_while_used),
               ("tag-never-deleted", tag_never_deleted),
@@ -1061,7 +1167,7 @@ def selftest(tier: str) -> int:
               ("protected-name-registered-without-tag", protected_name_registered_without_tag),
               ("unregister-uses-current-formatter", unregister_uses_current_formatter),
               ("unregister-drops-foreign-tag-of-same-name", unregister_removes_protected_builtin),
-              ("third-registry-forgets-names (traces only)", third_registry_forgets_names)]
+              ("dotted-name-keeps-its-tag (recorded traces only)", dotted_name_keeps_its_tag)]
     rc = run_probes(PID, probes, body)
     rc2 = _corruption_tests()
     return 1 if (rc or rc2) else 0
